@@ -155,3 +155,22 @@ Theorem C17_lfht_retry_with_table_size_refuted :
 Proof. exact (@Urcu.Progress.LazyCount.retry_with_table_size_refuted). Qed.
 Print Assumptions C17_lfht_retry_with_table_size_refuted.
 
+(* rculfhash lazy grow request (_uatomic_xchg_monotonic_increase on resize_target, inside every add on an auto-resize table): a failed cmpxchg feeds the value it returned back as the next expected value, so two consecutive rounds that meet the same target end the loop *)
+Theorem C17_lfht_lazy_grow_request_lock_free :
+    forall (pre : list N) (t : N) (post : list N) (old v : N),
+    grow_run (pre ++ t :: t :: post) old v <> None.
+Proof. exact (@Urcu.Progress.LazyCount.grow_lock_free). Qed.
+Print Assumptions C17_lfht_lazy_grow_request_lock_free.
+
+(* alone it takes one round and leaves max(target, request) *)
+Theorem C17_lfht_lazy_grow_request_alone :
+    forall tgt v : N, grow_run [tgt] tgt v = Some (N.max tgt v, tgt, 1).
+Proof. exact (@Urcu.Progress.LazyCount.grow_solo). Qed.
+Print Assumptions C17_lfht_lazy_grow_request_alone.
+
+(* a loop that keeps its first expected value spins for ever once another thread has changed the target *)
+Theorem C17_lfht_grow_stale_expected_refuted :
+    forall n : nat, grow_run_bad n 8 2 4 = None.
+Proof. exact (@Urcu.Progress.LazyCount.grow_stale_expected_refuted). Qed.
+Print Assumptions C17_lfht_grow_stale_expected_refuted.
+
